@@ -202,3 +202,95 @@ func TestC19Concurrent(t *testing.T) {
 		}
 	}
 }
+
+// TestC19LargeBacklog: the first prune on a node that has already followed the
+// chain for a long time removes hundreds of bodies in one call; a later prune
+// at a greater height removes the rest. After each call every best-chain body
+// below the prune height is gone, every body from it on is held, headers and
+// states stay everywhere (sequential; chains of 600..1100 empty v2 blocks).
+func TestC19LargeBacklog(t *testing.T) {
+	d := kit.NewDirect(t, "C19", "large backlog: chains of 600, 900 and (thorough) 1100 blocks followed without pruning, then PruneBlocks(tip-10), 20 more blocks, PruneBlocks(new tip-5): after each call every best-chain body below the prune height is gone, every body at or above it is served, every header and state is still there, and the minimum reorg index is the prune height")
+	defer d.Done()
+	type lcase struct {
+		Len int `json:"len"`
+	}
+	lens := []int{600, 900}
+	if kit.Thorough() {
+		lens = append(lens, 1100)
+	}
+	for i, n := range lens {
+		if !kit.MyShard(i) {
+			continue
+		}
+		lc := lcase{n}
+		cs := &kit.CaseStats{}
+		cs.NonTrivial()
+		cs.Classf("large-backlog:len=%d", n)
+		err := func() error {
+			tc := kit.TreeCase{Net: kit.NetSpec{Maturity: 1, Allow: 1, ReqOff: 0, CutOff: 4000}}
+			for j := 0; j < n+20; j++ {
+				tc.Blocks = append(tc.Blocks, kit.BlockSpec{Dt: 1, Miner: j % 4})
+			}
+			tr := kit.BuildTree(tc)
+			node, err := kit.NewNode(tr, "mem")
+			if err != nil {
+				return fmt.Errorf("INFRA: %v", err)
+			}
+			defer node.Close()
+			feed := func(from, to int) error {
+				for j := from; j < to; j += 50 {
+					var blocks []types.Block
+					for k := j; k < j+50 && k < to; k++ {
+						if tr.Nodes[k].Ledger == nil {
+							return fmt.Errorf("INFRA: block %d invalid: %v", k, tr.Nodes[k].Err)
+						}
+						blocks = append(blocks, tr.Nodes[k].Block)
+					}
+					if err := node.CM.AddBlocks(blocks); err != nil {
+						return fmt.Errorf("valid blocks %d.. refused: %v", j, err)
+					}
+				}
+				return nil
+			}
+			verify := func(h uint64) error {
+				for _, tn := range tr.Nodes {
+					if tn.Height > node.CM.Tip().Height {
+						break
+					}
+					_, has := node.CM.Block(tn.ID)
+					if tn.Height < h && has {
+						return fmt.Errorf("after PruneBlocks(%d) on a chain of %d blocks: the body at height %d is still served", h, node.CM.Tip().Height, tn.Height)
+					}
+					if tn.Height >= h && !has {
+						return fmt.Errorf("after PruneBlocks(%d): the body at height %d (at or above the prune height) is gone", h, tn.Height)
+					}
+					if st, ok := node.CM.State(tn.ID); !ok || !bytes.Equal(refl.StateBytes(st), refl.StateBytes(tn.Ledger.State)) {
+						return fmt.Errorf("after PruneBlocks(%d): the state of height %d is missing or differs from the reference", h, tn.Height)
+					}
+					if bi, ok := node.CM.BestIndex(tn.Height); !ok || bi != tn.Index() {
+						return fmt.Errorf("after PruneBlocks(%d): BestIndex(%d) = %v, %v", h, tn.Height, bi, ok)
+					}
+				}
+				if mri := node.CM.MinReorgIndex(); mri.Height != h && h > 0 {
+					return fmt.Errorf("after PruneBlocks(%d): MinReorgIndex is %v", h, mri)
+				}
+				return nil
+			}
+			if err := feed(0, n); err != nil {
+				return err
+			}
+			h1 := uint64(n - 10)
+			node.CM.PruneBlocks(h1)
+			if err := verify(h1); err != nil {
+				return err
+			}
+			if err := feed(n, n+20); err != nil {
+				return err
+			}
+			h2 := uint64(n + 15)
+			node.CM.PruneBlocks(h2)
+			return verify(h2)
+		}()
+		d.Case(lc, cs, err)
+	}
+}
